@@ -88,7 +88,12 @@ pub fn text<'text, Sc, F, V>(mut parser: F)
             (lexer, ctx)
         {
             Ok(succ) => {
-                let end = succ.lexer.parse_span().end().byte;
+                // If nothing was consumed, the lexer has not moved past any
+                // filtered tokens before the looked-ahead token: the text
+                // is empty.
+                let end = std::cmp::max(
+                    succ.lexer.parse_span().end().byte,
+                    start);
                 let value = &succ.lexer.source_text().text()[start..end];
 
                 Ok(Success {
@@ -152,7 +157,11 @@ pub fn spanned<'text, Sc, F, V>(mut parser: F)
             (lexer, ctx)
         {
             Ok(succ) => {
+                // If nothing was consumed, the lexer has not moved past any
+                // filtered tokens before the looked-ahead token: the span
+                // is empty.
                 let end = succ.lexer.parse_span().end();
+                let end = if end.byte < start.byte { start } else { end };
                 Ok(Success {
                     value: Spanned {
                         value: succ.value,
